@@ -124,11 +124,21 @@ def hostile(entry, kind, n=1, fan=10):
         return base_doc(entry, ref="&undefined;")
     if kind == "benign":
         return base_doc(entry)
+    if kind == "benign-charrefs":
+        # no DTD: the five predefined entities and numeric character references, in text and in attribute values
+        return base_doc(entry, ref="R&#38;D&#x20;&amp;&lt;&gt;&quot;&apos;&#233;&#x4E2D;", attr_ref="a&#38;b&#x20;&amp;&#32;")
+    if kind == "benign-mentions":
+        # no DTD either: the text merely mentions markup declarations, in a comment, in CDATA and in a processing instruction
+        return base_doc(entry, ref="<!-- <!ENTITY x \"y\"> <!DOCTYPE z> --><![CDATA[<!ENTITY a \"b\"> & &#38; &bogus;]]>"
+                                   "<?note <!ENTITY c \"d\"> ?>")
     raise ValueError(kind)
 
 
 def declares_entity(doc):
-    return re.search(r"<!ENTITY\b", doc) is not None
+    """an entity declaration in the DTD — not the characters '<!ENTITY' inside a comment, a CDATA section or a processing
+    instruction of the document body"""
+    bare = re.sub(r"<!--.*?-->|<!\[CDATA\[.*?\]\]>|<\?.*?\?>", " ", doc, flags=re.S)
+    return re.search(r"<!ENTITY\b", bare) is not None
 
 
 def well_formed(kind):
@@ -247,7 +257,7 @@ class HostileSuite(Suite):
             for kind in ("internal-attr", "quadratic", "ext-general-file", "ext-general-http", "ext-general-public",
                          "ext-param-file", "ext-param-http", "param-internal", "ext-dtd-file", "ext-dtd-http",
                          "ext-dtd-public", "attr-default", "unparsed", "declared-unused", "dtd-no-entity", "malformed",
-                         "malformed-entity-ref", "benign"):
+                         "malformed-entity-ref", "benign", "benign-charrefs", "benign-mentions"):
                 cases.append({"entry": entry, "kind": kind})
         for c in cases:
             c["doc"] = hostile(c["entry"], c["kind"], c.get("n", 1), c.get("fan", 10))
